@@ -658,7 +658,7 @@ def cache_put(r, src_sha):
 # ---------------------------------------------------------------------------
 # run a set of harnesses for a property
 
-def run_property_kani(prop, tier, harnesses, seed):
+def run_property_kani(prop, tier, harnesses, seed, on_result=None):
     """returns (runs, meta) ; prints nothing but progress on stderr"""
     t_start = time.time()
     files = sorted(set(h.file for h in harnesses))
@@ -751,6 +751,8 @@ def run_property_kani(prop, tier, harnesses, seed):
                     r = f.result()
                     cache_put(r, src_sha)
                     runs.append(r)
+                    if on_result:
+                        on_result(r)
                     log("  [%s] %-34s %-12s %6.1fs %s" % (prop, h.name, r.status, r.wall, r.reason))
     finally:
         cleanup(d)
